@@ -423,6 +423,9 @@ var c04Alpha = []*BatchSpec{
 	{Kids: kid("A", &BatchSpec{Ops: ops("S:a")})},
 	{DelKids: []string{"A"}},
 	{Kids: kid("A", &BatchSpec{Ops: ops("S:b")})}, // a different key, so that a recreated A is distinguishable from its predecessor
+	// keys of very uneven length: with the key-index options of the last configuration the in-memory index of the
+	// persisted segment ends early (its data area is sized from the average key length)
+	{Ops: ops("S:a", "S:b", "S:c", "S:d", "S:"+strings.Repeat("e", 40), "S:f", "S:g", "S:h")},
 }
 
 func storeConfigs(tier string, mergeOp bool) []Config {
